@@ -126,6 +126,42 @@ def step (st : St) (n : Nat) (ln : Line) : St × List String :=
       (if m != .postRaw ∧ !isAppend ∧ existing.isSome then ["COV write.overwrite"] else [])
     let st' := { st with opNo := gen, model := put st.model key e', impl := put st.impl key inow }
     (st', diff n ln (toString status :: gcTok del :: dumpToks e') ++ judgeOut n j (s!"{ln.op} {a.take 5}") ++ cov)
+  | "putuf" | "postuf" =>
+    -- an error-free body; the master refuses every attempt to store the chunk read k-th
+    let etc := a.getD 0 "" == "etc"
+    let key := a.getD 0 "" ++ "/" ++ a.getD 1 ""
+    let isAppend := a.getD 2 "0" == "1"
+    let cs := tokNat (a.getD 3 "")
+    let k := tokNat (a.getD 4 "")
+    let body := tokBytes (a.getD 5 "-")
+    let m : Method := if ln.op == "putuf" then .put else .postMultipart
+    let gen := st.opNo + 1
+    let existing := st.model.lookup key
+    let (status, e', del) := handleUploadFail existing m isAppend cs st.limit etc gen body k
+    let refused := refusedAttempts m isAppend cs st.limit etc gen body k
+    let u := uploadReaderToChunks cs st.limit isAppend etc gen body false
+    -- judge over the implementation's outputs: the fault-free judge unless the stand-in did refuse a chunk
+    let istatus := tokNat (o.getD 0 "0")
+    let irefused := tokNat ((o.getD 1 "uf=0").drop 3).toString
+    let inow := parseDump (o.drop 3)
+    let iprev := st.impl.lookup key
+    let q : Req := { raw := false, isAppend := isAppend, cs := cs, limit := st.limit, etc := etc, body := body, failAt := none }
+    let j := if irefused = 0 then writeJudge q iprev istatus inow else uploadFailJudge q iprev istatus inow
+    let hit := k < u.chunks.length
+    let cov :=
+      (if hit then ["COV upload-fail"] else ["COV upload-fail.no-such-chunk"]) ++
+      (if hit ∧ k = 0 then ["COV upload-fail.first-chunk"] else []) ++
+      (if hit ∧ 0 < k ∧ k + 1 < u.chunks.length then ["COV upload-fail.middle-chunk"] else []) ++
+      (if hit ∧ k + 1 < u.chunks.length then ["COV upload-fail.later-chunk-completes"] else []) ++
+      (if hit ∧ k + 1 = u.chunks.length then ["COV upload-fail.last-chunk"] else []) ++
+      (if hit ∧ del.length > 1 then ["COV upload-fail.deletes-chunks"] else []) ++
+      (if hit ∧ existing.isSome ∧ !isAppend then ["COV upload-fail.over-existing"] else []) ++
+      (if hit ∧ existing.isSome ∧ isAppend then ["COV upload-fail.on-append"] else []) ++
+      (if hit ∧ existing.isNone then ["COV upload-fail.new-file"] else []) ++
+      (if hit ∧ m == .postMultipart then ["COV upload-fail.post"] else []) ++
+      (if hit ∧ m == .put then ["COV upload-fail.put"] else [])
+    let st' := { st with opNo := gen, model := put st.model key e', impl := put st.impl key inow }
+    (st', diff n ln (toString status :: s!"uf={refused}" :: gcTok del :: dumpToks e') ++ judgeOut n j (s!"{ln.op} {a.take 5}") ++ cov)
   | _ => (st, [s!"DIFF {n} unknown-op {ln.op}"])
 
 def main : IO Unit := run { init := ({} : St), step := step }
